@@ -252,4 +252,26 @@ MUTANTS = [
     dict(p="C08", id="coverage-first-source-only", file="versatiles_pipeline/src/operations/read/from_overlayed.rs",
          old="				pyramid.include_bbox_pyramid(&parameters.bbox_pyramid);\n				ensure!(\n					parameters.tile_format == tile_format,", new="				ensure!(\n					parameters.tile_format == tile_format,",
          why="advertised coverage is the first source's only"),
+    # ================================================================ behaviour-preserving refactors (controls: every check must stay silent)
+    dict(p="C03", id="ctl-mb-rename-locals", file="versatiles_container/src/container/mbtiles/reader.rs", control=True, checks=["C03", "C16", "C02"],
+         old="PLACEHOLDER", new="PLACEHOLDER", why="rename y0/y1/x0/x1 in get_bbox_pyramid", regex=[(r"\by0\b", "row_lo"), (r"\by1\b", "row_hi"), (r"\bx0\b", "col_lo"), (r"\bx1\b", "col_hi")]),
+    dict(p="C09", id="ctl-zoom-lookup-early-return", file="versatiles_pipeline/src/operations/transform/filter_zoom.rs", control=True, checks=["C09", "C02"],
+         old="		if self.parameters.bbox_pyramid.contains_coord(coord) {\n			self.source.get_tile_data(coord).await\n		} else {\n			Ok(None)\n		}",
+         new="		if !self.parameters.bbox_pyramid.contains_coord(coord) {\n			return Ok(None);\n		}\n		self.source.get_tile_data(coord).await",
+         why="guard written as early return"),
+    dict(p="C08", id="ctl-overlay-lookup-match", file="versatiles_pipeline/src/operations/read/from_overlayed.rs", control=True, checks=["C08", "C02"],
+         old="			if let Some(mut blob) = result {\n				blob = recompress(\n					blob,\n					&source.get_parameters().tile_compression,\n					&self.parameters.tile_compression,\n				)?;\n				return Ok(Some(blob));\n			}",
+         new="			if let Some(blob) = result {\n				let blob = recompress(\n					blob,\n					&source.get_parameters().tile_compression,\n					&self.parameters.tile_compression,\n				)?;\n				return Ok(Some(blob));\n			}",
+         why="shadowing instead of mut"),
+    dict(p="C01", id="ctl-vt-writer-rename", file="versatiles_container/src/container/versatiles/writer.rs", control=True, checks=["C01", "C12", "C04"],
+         old="PLACEHOLDER", new="PLACEHOLDER", why="rename offset0/offset1/tile_index in write_block", regex=[(r"\boffset0\b", "block_start"), (r"\boffset1\b", "block_end"), (r"\btile_hash_lookup\b", "seen")]),
+    dict(p="C02", id="ctl-vt-stream-rename", file="versatiles_container/src/container/versatiles/reader.rs", control=True, checks=["C02", "C16", "C19", "C13"],
+         old="PLACEHOLDER", new="PLACEHOLDER", why="rename locals of the chunked stream", regex=[(r"\btiles_bbox_block\b", "block_box"), (r"\btiles_bbox_used\b", "wanted"), (r"\btile_ranges\b", "entries_in_box"), (r"\bbig_blob\b", "chunk_bytes")]),
+    dict(p="C20", id="ctl-cache-get-match", file="versatiles_core/src/types/limited_cache.rs", control=True, checks=["C20"],
+         old="		if let Some((value, old_index)) = self.cache.get_mut(key) {\n			self.last_index += 1;\n			*old_index = self.last_index;\n			Some(value.clone())\n		} else {\n			None\n		}",
+         new="		match self.cache.get_mut(key) {\n			Some((value, old_index)) => {\n				self.last_index += 1;\n				*old_index = self.last_index;\n				Some(value.clone())\n			}\n			None => None,\n		}",
+         why="if-let rewritten as match"),
+    dict(p="C20", id="ctl-cache-add-early-cleanup", file="versatiles_core/src/types/limited_cache.rs", control=True, checks=["C20"],
+         old="		if self.cache.len() >= self.max_length {\n			self.cleanup();\n		}\n\n		self.last_index += 1;", new="		self.last_index += 1;\n		if self.cache.len() >= self.max_length {\n			self.cleanup();\n		}\n",
+         why="stamp incremented before the cleanup (independent statements reordered)"),
 ]
